@@ -93,10 +93,12 @@ struct RecCmp {
     bool greater;
     bool operator()(const Rec& a, const Rec& b) const { return greater ? b.key() < a.key() : a.key() < b.key(); }
 };
+//! what std::less<Rec> (the defaulted comparator of the 2-argument form) uses: order by key only, tags distinguish equivalent elements
+inline bool operator<(const Rec& a, const Rec& b) { return a.key() < b.key(); }
+inline bool operator>(const Rec& a, const Rec& b) { return a.key() > b.key(); }
 
-} // namespace
-
-Lifetime sort_rec(const Params& p, std::vector<Item>& items) {
+template <class Sort>
+Lifetime sort_rec_with(std::vector<Item>& items, Sort sort) {
     Rec::live.store(0);
     Rec::constructed.store(0);
     Lifetime lt;
@@ -106,13 +108,27 @@ Lifetime sort_rec(const Params& p, std::vector<Item>& items) {
         for (const Item& it : items) v.emplace_back(it.key, it.tag);
         lt.live_before = Rec::live.load();
         long c0 = Rec::constructed.load();
-        run_tlx(p, v, RecCmp{p.greater});
+        sort(v);
         lt.live_after = Rec::live.load();
         lt.copies = Rec::constructed.load() - c0;
         for (size_t i = 0; i < items.size(); ++i) items[i] = Item{v[i].key(), v[i].tag()};
     }
     lt.live_end = Rec::live.load();
     return lt;
+}
+
+} // namespace
+
+Lifetime sort_rec(const Params& p, std::vector<Item>& items) {
+    return sort_rec_with(items, [&](std::vector<Rec>& v) { run_tlx(p, v, RecCmp{p.greater}); });
+}
+
+Lifetime sort_rec_less(const Params& p, std::vector<Item>& items) {
+    return sort_rec_with(items, [&](std::vector<Rec>& v) {
+        if (p.nargs == 2) run_tlx_default_comparator(p, v.begin(), v.end());
+        else if (p.greater) pbt::fail("C06/harness", "std::less is ascending");
+        else run_tlx(p, v, std::less<Rec>());
+    });
 }
 
 } // namespace c06
